@@ -64,13 +64,14 @@ class Closure:
 
 class SeqIter:
     """Iterator over the symbolic sequence `seq` (a Val term, seq_len/seq_at) starting at `pos` (z3 Int)."""
-    __slots__ = ("seq", "pos", "elem_in_D", "elem_fn")
+    __slots__ = ("seq", "pos", "elem_in_D", "elem_fn", "len_term")
 
     def __init__(self, seq, pos=None, elem_in_D=True, elem_fn=None):
         self.seq = seq
         self.pos = z3.IntVal(0) if pos is None else pos
         self.elem_in_D = elem_in_D
         self.elem_fn = elem_fn      # optional: (st, index z3 Int) -> V   (for zip / enumerate / items views)
+        self.len_term = None
 
 
 class HList:
